@@ -232,7 +232,7 @@ def normalize : Loc → Int → Loc
   | between p, len => between (Int.tmod p len)
   | point p, len => point (Int.tmod p len)
   | ranged s e p5 p3, len => rangedNormalize s e p5 p3 len
-  | ambiguous s e, len => ambiguous (Int.tmod s len) (Int.tmod e len)
+  | ambiguous s e, len => ambiguous (Int.tmod s len) (Int.tmod (e - 1) len + 1)
   | joined ls, len => join (normalizeList ls len)
   | ordered ls, len => order (normalizeList ls len)
   | compl l, len => compl (normalize l len)
